@@ -62,6 +62,7 @@ func (w *world) queueOpportunist(cidr, owner string) {
 type world struct {
 	oppQueue   []oppReq
 	reclaiming map[string]string // actor -> block it has marked for deletion on another host's behalf (directed stall)
+	relMarked  map[string]bool   // actor has just marked its own host's claim pendingDeletion (directed fault)
 	r   *core.R
 	s   *sched.Sched
 	st  *store.Store
@@ -301,7 +302,7 @@ func mustCIDR(s string) *net.IPNet {
 }
 
 func newWorld(r *core.R) *world {
-	w := &world{r: r, reclaiming: map[string]string{}, actors: map[string]*actorState{}, hostLabels: map[string]map[string]string{}, t0: time.Now()}
+	w := &world{r: r, relMarked: map[string]bool{}, reclaiming: map[string]string{}, actors: map[string]*actorState{}, hostLabels: map[string]map[string]string{}, t0: time.Now()}
 	w.s = sched.New(r)
 	w.st = store.New(r, w.s)
 	src := r.Src
@@ -349,12 +350,16 @@ func newWorld(r *core.R) *world {
 	}
 
 	// configuration (only combinations SetIPAMConfig would accept)
-	switch src.Weighted([]int{5, 3, 2}, "cfg_mode") {
+	cm, pmb := []int{5, 3, 2}, 400
+	if r.Armed("C20") {
+		cm, pmb = []int{3, 5, 2}, 700 // the block cap exists only under strict affinity
+	}
+	switch src.Weighted(cm, "cfg_mode") {
 	case 0:
 		w.strict, w.autoAlloc = false, true
 	case 1:
 		w.strict, w.autoAlloc = true, true
-		if src.Chance(400, "cfg_maxblocks") {
+		if src.Chance(pmb, "cfg_maxblocks") {
 			w.maxBlocks = src.Range(1, 2, "cfg_maxblocks_n")
 		}
 	case 2:
